@@ -52,7 +52,8 @@ def generate(rng, n, tier):
             ts[1] = ts[0]; ms[1] = ms[0]                      # zero elapsed time at the first end
             if rng.random() < 0.5:
                 pts[1] = list(pts[0])
-        out.append({'pts': pts, 'z': zs, 't': ts, 'ms': ms, 'preds': rng.random() < 0.2})
+        out.append({'pts': pts, 'z': zs, 't': ts, 'ms': ms, 'preds': rng.random() < 0.2,
+                    't0': rng.choice([0, 0, 0, 4107542400 - 110, 951782400 - 105, 4107542400 + 86400 * 100])})      # ordinary instants, or around the end of February 2100 / 2000
     # a few long tracks (more than 256 fixes: beyond the small-integer cache of CPython, and long enough for an index arithmetic slip to show);
     # they go through the oracle only (the model tie carries the full distance matrix)
     for k in ([258, 300] if tier == 'quick' else [257, 258, 259, 300, 400, 512]):
@@ -66,9 +67,11 @@ def generate(rng, n, tier):
 def mktrack(case):
     from tracklib.core import ObsTime, ENUCoords, Obs, Track
     obs = []
+    import datetime
     for (x, y), z, t, ms in zip(case['pts'], case['z'], case['t'], case['ms']):
-        ot = ObsTime.readUnixTime(t)
-        ot.ms = ms
+        # timestamps are calendar dates (as read from a file): built from their fields; the elapsed times of the property are those of the calendar
+        d = datetime.datetime(1970, 1, 1) + datetime.timedelta(seconds=t + case.get('t0', 0))
+        ot = ObsTime(d.year, d.month, d.day, d.hour, d.minute, d.second, ms)
         obs.append(Obs(ENUCoords(x, y, z), ot))
     return Track(obs)
 
@@ -101,7 +104,7 @@ def run_impl(case):
     names2 = tr.getListAnalyticalFeatures()
     pos1 = [(o.position.getX(), o.position.getY(), o.position.getZ(), str(o.timestamp), o.timestamp.ms) for o in tr]
     D = [[tr.getObs(a).position.distance2DTo(tr.getObs(b).position) for b in range(n)] for a in range(n)]
-    T = [tr.getObs(i).timestamp.toAbsTime() for i in range(n)]
+    T = [float(case['t'][i] + case.get('t0', 0)) + case['ms'][i] / 1000.0 for i in range(n)]          # the instants of the case (not the implementation's own conversion)
     return {'ret': enc(ret), 'ac': ac1, 'ac2': ac2, 'ret2': enc(ret2), 'names1': names1, 'names2': names2, 'speed': spd, 'speed_fn': spd_fn,
             'frame': pos0 == pos1, 'D': D, 'T': T}
 
